@@ -138,7 +138,7 @@ CLAIMED = {
               "are logged by effect; witness lemmas that each former gap (GETSET/HMSET/PEXPIRE/XREADGROUP missing, no SELECT, unlogged wake pops, verbatim SPOP) broke replay - 40 Lean theorems; the real server runs "
               "with --appendonly yes over TCP: after each history the file is parsed, compared with the model's log, replayed into a fresh server and both datasets dumped and compared (14k evaluations quick, 175k thorough), "
               "binary arguments, 16 dbs, EXEC, scripts, blocking clients, server restart from the file."),
-        note=TB + "fsync policy, torn final entries after power loss and BGREWRITEAOF are outside the model (the rewrite is a stub in this tree); scripts are logged verbatim (a script that draws at random or reads the clock replays differently: open finding); expiry during replay uses the replay clock.",
+        note=TB + "fsync policy and BGREWRITEAOF are outside the model (the rewrite is a stub in this tree); a torn final entry is cut back to the last complete frame at start-up since c034242 (modelled: truncating_to_the_complete_frames_restores_a_log); removals by expiry are logged as DEL since bc070c5 (replay_eq_live quantifies over histories in which time passes); scripts are logged verbatim (a script that draws at random or reads the clock replays differently: open finding); expiry during replay uses the replay clock.",
         ref="DESIGN.md section 5 C11"),
     "C12": dict(
         text=("Proof: the Lua<->RESP conversion of the prescribed variant is the standard Redis table and round-trips (all frames, all Lua values); KEYS/ARGV arrive bytewise; redis.call(cmd) = the "
@@ -147,7 +147,7 @@ CLAIMED = {
               "is one step in every schedule and its calls are contiguous; EVALSHA = EVAL, unknown hash refused; blocking/administrative names are refused inside scripts (table theorems by decide over the "
               "block-list regenerated from lua_engine.rs/executor.rs), sandbox globals removed - 36 Lean theorems; twin servers (direct vs wrapped in 8 script wrappers on 5 databases, full dumps after "
               "every command), call programs, return shapes, binary KEYS/ARGV, SCRIPT LOAD+EVALSHA, every refused name in call and pcall over TCP (9.9k evaluations quick, 159k thorough)."),
-        note=TB + "Executor/handler parity is measured by the twin run, not proved (executor.rs re-implements the commands; 9 parity findings recorded); nil-bulk->nil, status->string and false->:0 are pinned by the repo's own tests and stay recorded findings; scripts are cut after 5 s by a count hook (script_cut_keeps_prefix_effects; ten non-terminating shapes run on dedicated servers); Lua's own semantics are trusted.",
+        note=TB + "Executor/handler parity is measured by the twin run, not proved (executor.rs re-implements the commands; the parity findings of earlier rounds are repaired, see KNOWN_FINDINGS.json; open: the script-only command names); nil-bulk->nil, status->string and false->:0 are pinned by the repo's own tests and stay recorded findings; scripts are cut after 5 s by a count hook (script_cut_keeps_prefix_effects; ten non-terminating shapes run on dedicated servers); Lua's own semantics are trusted.",
         ref="DESIGN.md section 5 C12"),
     "C13": dict(
         text=("Proof: the accounting identity pushed = delivered + lost + stored (multiset) and no duplication for EVERY event history and every variant; FIFO service per key for every history; and for the tree as it is "
